@@ -43,7 +43,7 @@ def to_latlon(case, rng):
     tl = rg.ae_place(center, [(p[0] * UNIT_M, p[1] * UNIT_M) for p in case["trace"]])
     case["trace"] = [[q[0], q[1]] for q in tl]
     cfg = case["cfg"]
-    for k in ("obs_noise", "obs_noise_ne", "dist_noise", "max_dist", "max_dist_init"):
+    for k in ("obs_noise", "obs_noise_ne", "dist_noise", "dist_noise_ne", "max_dist", "max_dist_init"):
         if cfg.get(k) is not None:
             cfg[k] = cfg[k] * UNIT_M
     return case
@@ -119,6 +119,17 @@ def check_case(ctx, case):
         ctx.nontriv(case)
     ctx.sample(case)
 
+
+# no result depends on the log level: a tenth of the cases runs with the package logger at DEBUG (replayable: the flag is
+# part of the case / of the recorded witness)
+_dbg_gen, _dbg_chk = env.debug_dimension(0.1)
+gen_case = _dbg_gen(gen_case)
+check_case = _dbg_chk(check_case)
+
+# no clause depends on the map backend: a tenth of the eligible cases (integer labels, no linked edges) runs on SqliteMap
+_bk_gen, _bk_chk = build.backend_dimension(0.12)
+gen_case = _bk_gen(gen_case)
+check_case = _bk_chk(check_case)
 
 TECHNIQUE = "runtime monitoring: oracle over every state of the reported best path (configured cut-offs; exact-rational / vector nearest-point reference), incl. exact-threshold workload class"
 LEVEL_TEXT = ("{Q} (quick) / {T} (thorough) histories in both metrics; every state on every reported best path is checked against max_dist, "
